@@ -279,6 +279,18 @@ def parse_float_codecs(fns, gaps):
     for name, msg in (("gds_parse_float", "'Requires float or double value: %s'"), ("gds_parse_double", "'Requires double or float value: %s'")):
         f = fns.get(name)
         body = "\n".join(_u(x) for x in f.body) if f is not None else None
+        # the local holding the parsed value may have any name (a consistent rename of a local is behaviour-preserving):
+        # rename its Name nodes (never text inside string literals) to the canonical `fval_`; anything else is still a gap
+        if f is not None and len(f.body) >= 2 and isinstance(f.body[-1], ast.Return) and isinstance(f.body[-1].value, ast.Name):
+            loc = f.body[-1].value.id
+            used = {n.id for n in ast.walk(f) if isinstance(n, ast.Name)} | {a.arg for a in f.args.args}
+            if loc != "fval_" and "fval_" not in used and loc not in {a.arg for a in f.args.args} | {"exp", "float", "raise_parse_error"}:
+                import copy as _copy
+                g = _copy.deepcopy(f)
+                for n in ast.walk(g):
+                    if isinstance(n, ast.Name) and n.id == loc:
+                        n.id = "fval_"
+                body = "\n".join(_u(x) for x in g.body)
         out[name] = body == PARSE_FLOAT % msg
         if not out[name]:
             gaps.append("%s: body not understood: %s" % (name, (body or "missing")[:200].replace("\n", " | ")))
